@@ -36,8 +36,29 @@ def plan(tier):
     return {'stages': [('shard', 16)], 'timeout_s': 3000}
 
 
+DIALECTS = [(',', 'quoted', 'utf-8'), (',', 'quoted', 'utf-8'), (';', 'quoted', 'utf-8'), ('\t', 'simple', 'utf-8'), ('|', 'simple', 'latin-1'), (',', 'quoted_rfc', 'utf-8'), (' ', 'whitespace', 'utf-8'), ('::', 'quoted', 'utf-8')]
+
+
+def cell_ok(c, dialect):
+    dlm, policy, enc = dialect
+    if policy == 'simple':
+        return dlm not in c
+    if policy == 'whitespace':
+        return c != '' and ' ' not in c
+    return True
+
+
 @st.composite
 def st_scenario(draw):
+    sc = draw(st_scenario_base())
+    dialect = draw(st.sampled_from(DIALECTS))
+    ok = all(cell_ok(c, dialect) for t in (sc['A'], sc.get('B') or []) for r in t for c in r)
+    sc['dialect'] = list(dialect) if ok else list(DIALECTS[0])
+    return sc
+
+
+@st.composite
+def st_scenario_base(draw):
     kind = draw(st.integers(0, 9))
     aw = draw(st.integers(1, 4))
     n = draw(st.integers(1, 6))
@@ -137,7 +158,7 @@ def norm_table(recs):
 def cli(args, scratch, stdin_data=None):
     env = dict(os.environ, PYTHONPATH=os.path.join(REPO, 'rbql-py'), PYTHONWARNINGS='ignore', PYTHONIOENCODING='utf-8')
     p = subprocess.run([sys.executable, '-m', 'rbql'] + args, capture_output=True, env=env, cwd=scratch, input=stdin_data)
-    return p.returncode, p.stdout.decode('utf-8', errors='replace'), p.stderr.decode('utf-8', errors='replace')
+    return p.returncode, p.stdout, p.stderr.decode('utf-8', errors='replace')
 
 
 def check_scenario(sc, scratch, stats=None):
@@ -152,28 +173,32 @@ def check_scenario(sc, scratch, stats=None):
     r2 = engine.run_query_objects(text, copy.deepcopy(A), copy.deepcopy(B), a_names, b_names)
     results['query-objects'] = ('error', r2['error']['cls']) if r2['error'] else (norm_table(r2['out']), r2['header'])
     # files
+    dlm, policy, enc = sc.get('dialect') or [',', 'quoted', 'utf-8']
+    default_dialect = (dlm, policy, enc) == (',', 'quoted', 'utf-8')
     src, jn = os.path.join(scratch, 'c13_in.csv'), os.path.join(scratch, 'c13_join.csv')
-    with open(src, 'w', encoding='utf-8', newline='') as f:
-        f.write(refcsv.write_table([a_names] + A, ',', 'quoted'))
+    with open(src, 'w', encoding=enc, newline='') as f:
+        f.write(refcsv.write_table([a_names] + A, dlm, policy))
     if B is not None:
-        with open(jn, 'w', encoding='utf-8', newline='') as f:
-            f.write(refcsv.write_table([b_names] + B, ',', 'quoted'))
+        with open(jn, 'w', encoding=enc, newline='') as f:
+            f.write(refcsv.write_table([b_names] + B, dlm, policy))
     ftext = text.replace(' b on ', ' %s on ' % jn).replace(' B on ', ' %s on ' % jn) if B is not None else text
 
-    def parse(path_or_text, dlm, policy, is_text=False):
-        t = path_or_text if is_text else open(path_or_text, 'rb').read().decode('utf-8')
-        recs = refcsv.read_table(t, dlm, policy)['records']
+    def parse(path_or_text, pdlm, ppolicy, is_text=False, penc=None):
+        t = path_or_text if is_text else open(path_or_text, 'rb').read().decode(penc or enc)
+        recs = refcsv.read_table(t, pdlm, ppolicy)['records']
         return (recs[1:], recs[0] if recs else None)
     # 3. query_csv
     dst = os.path.join(scratch, 'c13_out.csv')
     warnings = []
     try:
-        rbql.query_csv(ftext, src, ',', 'quoted', dst, ',', 'quoted', 'utf-8', warnings, True)
+        rbql.query_csv(ftext, src, dlm, policy, dst, ',', 'quoted', enc, warnings, True)
         results['query_csv'] = parse(dst, ',', 'quoted')
     except Exception as e:
         results['query_csv'] = ('error', engine.err_info(e)['cls'])
     # 4-7. command line
     sel = len(text) % 4
+    if not default_dialect and sel < 2:
+        sel += 2       # `--out-format input` would write the input dialect, which cannot represent every output cell
     cli_runs = []
     if sel == 0:
         cli_runs.append(('cli-file', ['--input', src, '--output', dst], None, ',', 'quoted'))
@@ -187,7 +212,8 @@ def check_scenario(sc, scratch, stats=None):
     for name, extra, stdin_data, odlm, opol in cli_runs:
         if os.path.exists(dst):
             os.remove(dst)
-        rc, out, err = cli(['--delim', ',', '--policy', 'quoted', '--with-headers', '--query', ftext] + extra, scratch, stdin_data)
+        rc, out, err = cli(['--delim', dlm, '--policy', policy, '--encoding', enc, '--with-headers', '--query', ftext] + extra, scratch, stdin_data)
+        out = out.decode(enc, errors='replace')
         ctx = {'query': ftext, 'entry': name, 'exit': rc, 'stderr': err[-400:], 'stdout': out[:300]}
         if lib_err is None:
             if rc != 0:
@@ -238,7 +264,7 @@ def check_scenario(sc, scratch, stats=None):
     sdst = os.path.join(scratch, 'c13_sql.csv')
     try:
         rbql_sqlite.query_sqlite_to_csv(text.replace(' B on ', ' b on '), con, 't', sdst, ',', 'quoted', 'utf-8', [])
-        results['sqlite'] = parse(sdst, ',', 'quoted')
+        results['sqlite'] = parse(sdst, ',', 'quoted', penc='utf-8')
     except Exception as e:
         results['sqlite'] = ('error', engine.err_info(e)['cls'])
     finally:
